@@ -283,11 +283,12 @@ func init() {
 			}
 			n := begin(s)
 			var sets []map[string]struct{}
-			sawMissing := false
+			sawMissing, firstMissing := false, false
+			isDiff := name == "sdiff" || name == "sdiffstore"
 			for _, kb := range a[first:] {
 				e, ok := n.setOf(string(kb))
 				if !ok {
-					if isInter && sawMissing {
+					if (isInter && sawMissing) || (isDiff && firstMissing) {
 						// older servers answer the empty intersection as soon as an operand is missing
 						alt := begin(s)
 						r := MEmptyArr()
@@ -300,6 +301,9 @@ func init() {
 					return wrongType(n)
 				}
 				if e == nil {
+					if len(sets) == 0 {
+						firstMissing = true
+					}
 					sawMissing = true
 					sets = append(sets, map[string]struct{}{})
 				} else {
@@ -315,16 +319,21 @@ func init() {
 				return one(MStrSet(ms), n)
 			}
 			d := string(a[1])
+			var alts []Outcome
+			if de := n.M[d]; de != nil && de.T != "set" {
+				// the reference overwrites a destination of any type; the general WRONGTYPE rule is accepted too
+				alts = []Outcome{{Reply: MWrongType(), Next: begin(s)}}
+			}
 			if len(res) == 0 {
 				delete(n.M, d)
-				return one(MInt(0), n)
+				return append(one(MInt(0), n), alts...)
 			}
 			ne := &Entry{T: "set", Set: map[string]struct{}{}}
 			for m := range res {
 				ne.Set[m] = struct{}{}
 			}
 			n.M[d] = ne
-			return one(MInt(int64(len(res))), n)
+			return append(one(MInt(int64(len(res))), n), alts...)
 		})
 	}
 	union := func(sets []map[string]struct{}) map[string]struct{} {
